@@ -1,7 +1,7 @@
 (* Pinned statements of the C03 theorems (generated once by bin/genpins, then committed):
    fails to compile if Props/C03.v is weakened, renamed or given other hypotheses. *)
 From Coq Require Import SpecFloat.
-Require Import Base Value Float PrintOptions ParseOptions Reader Scan Num Parser DepthProofs DepthBoundProofs FuelProofs FloatFuel.
+Require Import Base Value Float PrintOptions ParseOptions Reader Scan Num Parser DepthProofs DepthBoundProofs FuelProofs FloatFuel SourcesAgree.
 Require Import Lexpr.Props.C03.
 
 Check (C03_budget_restored :
@@ -34,6 +34,17 @@ Check (C03_history_total :
   forall ro alpha fast std_parse k inp cs,
   Forall (fun r => ~ call_fuel r) (run_history ro alpha fast std_parse (fuel_for inp) cs (init_state k inp)) /\
   Forall call_ok (run_history ro alpha fast std_parse (fuel_for inp) cs (init_state k inp))).
+
+Check (C03_fuel_irrelevant :
+  forall ro alpha fast std_parse fuel k inp, (fuel_for inp <= fuel)%nat ->
+  from_trait_fuel ro alpha fast std_parse fuel k inp = from_trait ro alpha fast std_parse k inp /\
+  datum_from_trait_fuel ro alpha fast std_parse fuel k inp = datum_from_trait ro alpha fast std_parse k inp).
+
+Check (C03_fuel_irrelevant_every_call :
+  forall ro alpha fast std_parse fi fs n s,
+  (2 * n + 3 <= fi)%nat -> (fi <= fs)%nat -> (FuelProofs.rem (rd s) <= n)%nat ->
+  next_value ro alpha fast std_parse fi s = next_value ro alpha fast std_parse fs s /\
+  next_datum ro alpha fast std_parse fi s = next_datum ro alpha fast std_parse fs s).
 
 Check (C03_depth_every_call :
   forall ro alpha fast std_parse fuel D s, depth s = D -> 1 <= D <= 128 ->
